@@ -9,7 +9,8 @@
    over the engine (an event the protocol does not allow is a no-op), [gate] is the
    sliding window (any function; progress needs only "insertion is allowed when nothing
    is pending"); [body] is an arbitrary deterministic function of task id and inputs. *)
-From PV Require Import Base.Tac DTD.DTDDefs DTD.DTDSeq DTD.DTDChain DTD.DTDEngine DTD.DTDProofs.
+From PV Require Import Base.Tac DTD.DTDDefs DTD.DTDSeq DTD.DTDChain DTD.DTDEngine DTD.DTDProofs
+  DTD.DTDGate DTD.DTDGateProofs.
 
 (* the edges built by insertion point backwards, to conflicting tasks only *)
 Theorem C03_edges_sound : forall p k j,
@@ -74,6 +75,16 @@ Print Assumptions C03_complete_run_exists.
 Theorem C03_window_gate_admissible : forall w th i, window_gate w th i i = true.
 Proof. exact window_gate_idle. Qed.
 Print Assumptions C03_window_gate_admissible.
+
+(* the flow-level mechanism (DTD/DTDGate.v, with the guard of notes/findings/C03-stale-last-user.patch)
+   refines the protocol engine: every run of the mechanism on a sequence in which no task names a
+   tile twice is a run of the engine whose dependencies are all the earlier conflicting tasks, so
+   C03_dag_serialisable applies to it *)
+Theorem C03_mechanism_refines_protocol : forall p, norep p -> forall body m0 es,
+  exists es', let a := run body p (conf_dep p) no_window m0 es' in
+    ins a = g_ins (grun true p es) /\ forall t, st a t = g_st (grun true p es) t.
+Proof. exact gate_refines. Qed.
+Print Assumptions C03_mechanism_refines_protocol.
 
 (* non-vacuity: 5 tasks over 2 data (read groups, a datum used twice by one task); an
    interleaved schedule with refused events, under the window (1, 0) and without window *)
